@@ -139,6 +139,10 @@ def run(ctx):
     logging.getLogger("loader_common").setLevel(logging.ERROR)
     logging.getLogger("vmmngr").setLevel(logging.ERROR)
     overlay.activate(ctx, ("VmMngr",))
+    import miasm.jitter.loader.utils
+    import miasm.jitter.loader.pe
+    for name in ("loader_common", "loader_pe", "vmmngr", "loader_elf"):
+        logging.getLogger(name).setLevel(logging.ERROR)
     q = ctx.quick
     rng = ctx.rng
     items, meta = [], []
